@@ -581,6 +581,8 @@ def graph_specs(k, limit=None, rng=None):
     for i in range(k):
         opts = []
         subsets = [c for r in range(len(members) + 1) for c in itertools.combinations(members, r)]
+        # both member orders: a reference before the opaque field and after it
+        subsets = subsets + [tuple(reversed(c)) for c in subsets if len(c) > 1]
         for sub in subsets:
             # struct
             fields = [("int", "pad_", "", False)]
